@@ -360,6 +360,17 @@ def sample_case(d, tree_type):
             pp = [c for c in calls if c['op'] == 'ppf']
             if len(pp) != 2:
                 bad.append(f'{len(pp)} conditional-inverse calls for 2 rows of a 2-column vine')
+            else:
+                for r_, c in enumerate(pp):
+                    yt, vt = tz(np.asarray(c['y'], dtype=object).flat[0]), tz(np.asarray(c['V'], dtype=object).flat[0])
+                    if yt.eq(vt):
+                        bad.append(f'row {r_}: the conditional inverse is evaluated at (y, v) with y and v the same uniform draw')
+                        break
+                    # the first visited variable is the quantile of the conditioning uniform itself
+                    row = [x.t for x in out.iloc[r_] if isinstance(x, SymReal)]
+                    if not any(z3.is_app(t_) and t_.decl().eq(gm.QJ) and t_.arg(1).eq(vt) for t_ in row):
+                        bad.append(f'row {r_}: no output column is the marginal quantile of the conditioning uniform')
+                        break
     return [(f'{tree_type} d={d}: sample(2) has 2 rows, training columns in order, every entry a quantile of its own marginal ({len(paths)} paths)',
              'unsat' if not bad and ex else ('unknown' if not bad else 'sat'), bad[:3])], len(paths)
 
@@ -500,10 +511,10 @@ def _concrete_violation(kind, d, tree_type, tau=None, seed=0):
                 Y = pd.DataFrame({'p': a, 'q': rho * a + np.sqrt(1 - rho * rho) * rs.normal(size=300)})
                 w = VineCopula(tree_type, random_state=2)
                 w.fit(Y)
-                S = w.sample(150)
+                S = w.sample(300)
                 taus.append((stats.kendalltau(Y['p'], Y['q'])[0], stats.kendalltau(S['p'], S['q'])[0]))
             for tr_, sm_ in taus:
-                if not np.isfinite(sm_) or tr_ * sm_ <= 0 or abs(sm_) < 0.25:
+                if not np.isfinite(sm_) or tr_ * sm_ <= 0 or abs(sm_) < 0.25 or abs(sm_ - tr_) > 0.2:
                     return True, (f'two {tree_type} vines fitted one after the other on 2-column tables with Kendall tau {taus[0][0]:+.2f} and '
                                   f'{taus[1][0]:+.2f}: their samples have tau {taus[0][1]:+.2f} and {taus[1][1]:+.2f}')
     except Exception as e:
